@@ -314,7 +314,7 @@ def gen_cases(rng, tier):
     tiny = _known('C11-derived-rate-unrepresentable')
     cases = [gen_script(rng, with_identity=ident) for _ in range(n)]
     if tiny:
-        cases += [gen_script(rng, with_identity=ident, tiny=True) for _ in range(n // 20)]
+        cases += [gen_script(rng, with_identity=ident, tiny=True) for _ in range(max(8, n // 20))]
     return cases
 
 
